@@ -724,10 +724,14 @@ def clip(a, a_min=None, a_max=None, out=None, out_like=None, sizing='optimal', m
 
         # element by element on python numbers: every code that is not clipped stays exactly what it is, whatever the types of the bounds
         raw = np.asarray(x.val)
-        clipped = np.minimum(np.maximum(raw.astype(object), val_min), val_max)
-        if raw.dtype != object and all(isinstance(v, (int, np.integer)) for v in np.asarray(clipped, dtype=object).flatten()):
-            _neg = any(v < 0 for v in np.asarray(clipped, dtype=object).flatten())
-            clipped = np.asarray(clipped, dtype=object).astype(raw.dtype if raw.dtype.kind in 'iu' and not (raw.dtype.kind == 'u' and _neg) else np.int64)
+        codes, lows, highs = np.broadcast_arrays(np.atleast_1d(raw.astype(object)), np.asarray(val_min, dtype=object), np.asarray(val_max, dtype=object))
+        vals = [min(max(v, lo), hi) for v, lo, hi in zip(codes.ravel().tolist(), lows.ravel().tolist(), highs.ravel().tolist())]
+        clipped = np.empty(len(vals), dtype=object)
+        clipped[:] = vals
+        clipped = clipped.reshape(codes.shape if (raw.ndim or codes.shape != (1,)) else ())
+        if raw.dtype.kind in 'iu' and all(isinstance(v, int) and -2**63 <= v < 2**63 for v in vals):
+            # (codes of up to 64 bits go back to numpy integers; signed ones if a bound pushed an unsigned code below zero)
+            clipped = clipped.astype(np.int64 if (raw.dtype.kind == 'i' or any(v < 0 for v in vals)) else raw.dtype)
         return utils.scale_raw(clipped, n_frac - x.n_frac)
 
     # (numpy 2.1 and later spell the bounds `min` and `max` as well)
